@@ -1,5 +1,7 @@
 import EupsModel.Lemmas.SetupInverse
 import EupsModel.Lemmas.SetupClear
+import EupsModel.Lemmas.SetupShell
+import EupsModel.Model.SetupEmit
 /-! C02 — unsetup is the inverse of setup; a failing request leaves the environment as it found it.
 Model: `EupsModel/Model/Setup.lean` (shared with C01, C04). -/
 namespace EupsModel.C02
@@ -66,6 +68,82 @@ theorem C02_failed_required_dependency_raises (rec : Rec) (cfg : Cfg) (depth : N
     acts rec cfg true depth false vro d (.dep n false just ver vexpr tags kl :: rest) s = .raised (⟨s.env, s.aliases, s.unaliased, s'.already, s'.cache⟩ : St) := by
   unfold lineVro at hfail
   rcases hfail with h | h <;> simp [acts, hgo, h]
+
+/-- the same two facts for the recursion itself (`rec := setup cfg fuel`, every fuel), at every depth of the traversal: a
+dependency that fails — `setupOptional` going forward, any dependency while unwinding; "not found" or an exception from
+anywhere below, e.g. a missing *required* dependency further down — leaves no trace in the environment, the aliases or
+the marks for `unset -f`: the rest of the table runs from what was there before the attempt -/
+theorem C02_failed_optional_no_trace (cfg : Cfg) (fuel : Nat) (fwd : Bool) (depth : Nat) (vro : List VroEnt)
+    (d : Decl) (n : Name) (opt just : Bool) (ver : Option VerReq) (vexpr : Option VExpr) (tags : List Str) (kl : Bool)
+    (rest : List Act) (s : St) (hgo : cfg.maxDepth ≠ some depth) (hopt : fwd = false ∨ opt = true)
+    (hfail : ∀ s1, setup cfg fuel fwd (depth + 1) just (lineVro vro tags kl) n
+        (if fwd then ver else none) (if fwd then vexpr else none) s ≠ .ok s1)
+    (hfuel : setup cfg fuel fwd (depth + 1) just (lineVro vro tags kl) n
+        (if fwd then ver else none) (if fwd then vexpr else none) s ≠ .fuel) :
+    ∃ al ca, acts (setup cfg fuel) cfg fwd depth false vro d (.dep n opt just ver vexpr tags kl :: rest) s =
+      acts (setup cfg fuel) cfg fwd depth false vro d rest (⟨s.env, s.aliases, s.unaliased, al, ca⟩ : St) := by
+  cases hr : setup cfg fuel fwd (depth + 1) just (lineVro vro tags kl) n
+      (if fwd then ver else none) (if fwd then vexpr else none) s with
+  | ok s1 => exact absurd hr (hfail s1)
+  | fuel => exact absurd hr hfuel
+  | notFound s1 =>
+    exact ⟨s1.already, s1.cache, C02_failed_dependency_restores_env (setup cfg fuel) cfg fwd depth vro d n opt just ver vexpr
+      tags kl rest s s1 hgo hopt (Or.inl hr)⟩
+  | raised s1 =>
+    exact ⟨s1.already, s1.cache, C02_failed_dependency_restores_env (setup cfg fuel) cfg fwd depth vro d n opt just ver vexpr
+      tags kl rest s s1 hgo hopt (Or.inr hr)⟩
+
+/-! ## clause 2 at the caller's shell: what `eval $(eups_setup …)` leaves behind
+
+`Shell` (`Lemmas/SetupShell.lean`): the caller's variables and functions as lookups; `Emitted.apply`: the commands are
+evaluated (`export`, `unset`, function definition, `unset -f`; `false` changes nothing), an exception emits nothing. -/
+
+/-- **A setup request that fails leaves the environment exactly as it found it**: whatever makes `Eups.setup` not succeed
+— unknown product or version, a missing required dependency at any depth, an exception from below, unsetup of a product
+that is not set up (in the model also: out of fuel) — the caller's shell, variables and functions, is unchanged.  Every
+database, request, direction, prior environment, fuel. -/
+theorem C02_failed_request_leaves_shell (db : Db) (fuel : Nat) (fwd : Bool) (r : Request) (e : Setup.Env)
+    (hfail : ∀ s, (if fwd then runSetup db fuel r e else runUnsetup db fuel r e) ≠ .ok s) (sh : Shell) :
+    (appSetup db fuel fwd r e).apply sh = sh := by
+  rcases C02_failed_request_emits_nothing db fuel fwd r e hfail with h | h | h <;> rw [h] <;> rfl
+
+/-- … and at the level of the text `eups_setup` prints (`Model/SetupEmit.lean`: `Setup.delta` rendered by C05's emitter): a
+request that fails prints exactly `false`, or nothing at all (an exception) — no `export`, `unset` or function text,
+whatever the layout of the stacks. -/
+theorem C02_failed_request_text (db : Db) (L : SetupEmit.Layout) (fuel : Nat) (fwd : Bool) (r : Request) (e : Setup.Env)
+    (hfail : ∀ s, (if fwd then runSetup db fuel r e else runUnsetup db fuel r e) ≠ .ok s) :
+    SetupEmit.emitSh db L (appSetup db fuel fwd r e) = some [ShellEmit.sFalse] ∨
+    SetupEmit.emitSh db L (appSetup db fuel fwd r e) = none := by
+  rcases C02_failed_request_emits_nothing db fuel fwd r e hfail with h | h | h <;> rw [h]
+  · left; rfl
+  · right; rfl
+  · right; rfl
+
+/-- … and a request that succeeds hands the shell exactly the environment `Eups.setup` computed: from the shell that holds
+the environment eups was started in (and any functions `f`), after the emitted commands every `SETUP_` record, `<P>_DIR`,
+path variable and `envSet` variable is defined with the computed value or undefined as computed; the functions are those
+of `Eups.aliases`, minus the ones marked for `unset -f`.  (The glue between `Eups.setup` and the emission loop of
+`eups.app.setup`; C05 owns the text level.)  Every database, request, direction, prior environment, fuel. -/
+theorem C02_commands_realise_environment (db : Db) (fuel : Nat) (fwd : Bool) (r : Request) (e : Setup.Env) (s : St)
+    (f : Str → Option Str) (h : (if fwd then runSetup db fuel r e else runUnsetup db fuel r e) = .ok s) :
+    let sh := (appSetup db fuel fwd r e).apply (Shell.of e f)
+    (∀ n, sh.recs n = s.env.rec? n) ∧ (∀ n, sh.dirs n = aget s.env.dirs n) ∧
+    (∀ var, sh.paths var = aget s.env.paths var) ∧ (∀ var, sh.vars var = aget s.env.vars var) ∧
+    (∀ k, sh.funcs k = match aget s.aliases k with
+      | some v => some v
+      | none => if k ∈ s.unaliased then none else f k) := by
+  have hnd : AliasND s := by
+    have h0 : AliasND (St.init e) := by simp [AliasND, St.init]
+    cases fwd with
+    | true => exact setup_aliasND (r.cfg db) fuel true 0 false r.vro r.name r.version none (St.init e) s h0 (by
+        have : runSetup db fuel r e = .ok s := h
+        unfold runSetup at this; rw [this]; rfl)
+    | false => exact setup_aliasND (r.cfg db) fuel false 0 false r.vro r.name none none (St.init e) s h0 (by
+        have : runUnsetup db fuel r e = .ok s := h
+        unfold runUnsetup at this; rw [this]; rfl)
+  have : appSetup db fuel fwd r e = .cmds (delta e s) := by unfold appSetup; rw [h]
+  rw [this]
+  exact runCmds_delta e s f hnd
 
 /-! ## clause 1 is false as stated: two witnesses (design limits of eups, findings D15a / D15b) -/
 
@@ -367,5 +445,13 @@ example : OwnTables dbConflict ∧ NameDag dbConflict (fun n => if n = nT then 3
     roundTrip dbConflict reqT priorDia = some ⟨[], [], [(PATH, [.foreign [47, 117]])], []⟩ :=
   ⟨ownTables_of_check _ (by decide +kernel), nameDag_of_check _ _ (by decide +kernel),
    noJust_of_check _ _ (by decide +kernel), by decide +kernel, by decide +kernel⟩
+
+/-- non-vacuity: the round trip of `dbA` seen from the shell — after `setup a` the shell holds the record, after the
+`unsetup a` that follows it does not -/
+example :
+    (match runSetup dbA 10 reqA Setup.Env.empty with
+     | .ok s1 => (((appSetup dbA 10 true reqA Setup.Env.empty).apply (Shell.of Setup.Env.empty (fun _ => none))).recs nA,
+                  ((appSetup dbA 10 false reqA s1.env).apply (Shell.of s1.env (fun _ => none))).recs nA)
+     | _ => (none, none)) = (some v1, none) := by decide +kernel
 
 end EupsModel.C02
